@@ -1,5 +1,5 @@
 //@unit C10_joins
-//@props C10 C01
+//@props C10 C01 C02
 //@safetyprops C14
 //@desc The edge-join bookkeeping of the sweep (loop-free; IsHotEdge, IsHorizontal, IsOpen are the real bodies; PerpendicDistFromLineSqrd, IsCollinear, AddLocalMaxPoly, AddLocalMinPoly, JoinOutrecPaths are stubs). Pairing invariant: an edge marked JoinWith::Right has a right neighbour marked JoinWith::Left and vice versa. CheckJoinLeft / CheckJoinRight: only two hot, non-horizontal, closed neighbours that are collinear through pt are ever joined; a join calls exactly one of AddLocalMaxPoly (same OutRec) / JoinOutrecPaths (different OutRecs) and ESTABLISHES the pairing (left edge Right, right edge Left); otherwise nothing changes; no null neighbour or null OutRec is dereferenced. Split: given the pairing invariant, the pair is dissolved on BOTH edges and AddLocalMinPoly(left edge, right edge, pt, is_new = true) is called once; the neighbour it needs exists.
 #include "vf.h"
